@@ -4,6 +4,7 @@ case = {"form": "str" | "bytes" | "lines" | "lines-nl" | "bytes-lines" | "file" 
         "codec": "utf-8" | "latin-1" | ...,     (optional, default "utf-8": how bytes input is encoded)
         "via": "default" | "ctor" | "call" | "call-over",   (optional, default "default")
         "other": codec,                         (only for "call-over": the constructor's encoding)
+        "history": [step, ...],                 (optional: what ONE object was used for before, see below)
         "lead": [...], "blocks": [...]}          (structure: see gen/c04_changelog.py)
 
 The text is the plain concatenation of the rendered lines, each followed by "\\n"; everything the
@@ -19,6 +20,24 @@ call is what that call reads its input with).  "via" says where the codec of the
     call-over  Changelog(encoding=other).parse_changelog(input, strict=True, encoding=codec)
 
 str-typed forms get the same treatment (the parameter must then be without effect on str()).
+
+What a strict parse of a well-formed text yields is a function of that text, the input form and the
+encoding in force for that call (the call's ``encoding=``, else the one the object was constructed
+with) - not of what the object was used for before.  So the text is also parsed into *used* objects
+and everything is demanded again of the result:
+
+  * a fixed one: an object that holds a completed parse of another text and was scribbled on;
+  * with "history": an object constructed as ``via`` says (without input), then put through the steps
+
+        {"lines": [...], "form": F, "codec": C, "strict": bool, "enc": null | codec,
+         "ctor": bool, "max_blocks": null | n, "empty_author": bool, "scribble": bool}
+
+    each of which hands ``lines`` (arbitrary - usually damaged - line bodies; bytes forms encoded in
+    C) to parse_changelog(strict=, encoding=enc, max_blocks=, allow_empty_author=), or, for step 0
+    with "ctor", to the constructor.  Whatever a step does is accepted (it may complete, warn, raise
+    ChangelogParseError in the middle of a block, or die with UnicodeDecodeError on a bytes line);
+    "scribble" then edits what the object holds.  Only the final strict parse of the well-formed
+    text, done exactly as for a fresh object, is judged.
 """
 import io
 import warnings
@@ -42,7 +61,15 @@ RULE = ("cases are changelog structures drawn from the deb-changelog(5) grammar 
         "characters a codec cannot spell are replaced by characters it can) x where the "
         "codec is named (nowhere = UTF-8 default / encoding= of the constructor / encoding= of "
         "parse_changelog on a default object / encoding= of parse_changelog on an object "
-        "constructed with a different encoding); expected text = concatenation of the rendered lines. "
+        "constructed with a different encoding) x past of the object the text is parsed into (fresh; a "
+        "fixed completed parse of another text + edits; 0..3 drawn earlier uses of one object: the "
+        "constructor or parse_changelog() given a small changelog cut short and/or with a junk line put "
+        "in, or (1 step in 4) a generated changelog after 0..2 line operations, in any of the 7 forms / "
+        "7 codecs, strict or lenient, with or without an explicit encoding= (any codec, incl. ones "
+        "other than the object's and than the bytes'), max_blocks=1, allow_empty_author, followed or "
+        "not by edits of what the object then holds; whatever those earlier uses do - complete, warn, "
+        "raise ChangelogParseError, raise UnicodeDecodeError - is accepted, the final strict parse is "
+        "judged in full); expected text = concatenation of the rendered lines. "
         "Non-trivial = >=2 blocks, or extra keys, or an urgency comment, or a change line "
         "containing '#', ':' or non-ASCII; distinct = distinct canonical JSON of the case")
 ASSUMPTIONS = [
@@ -55,6 +82,11 @@ ASSUMPTIONS = [
     "bytes input = Python's own codec applied to the expected text (checked to decode back to it); lines of "
     "bytes are the encoded lines (codecs are stateless and keep b'\\n' for the newline only); bytes() is "
     "compared with the encoded text only when the object was constructed with (or defaults to) the input's codec",
+    "an object's encoding in force for a call without encoding= is the one its constructor was given (UTF-8 "
+    "by default), whatever earlier calls on it were told; bytes() of an object with a past is compared only "
+    "when no earlier call named an encoding",
+    "earlier uses of an object are inputs of the case, not subjects: any exception they raise is recorded "
+    "as a label ('history:last-step:...'), never as a violation",
     "Hypothesis 6.168 generators; sha1 for distinctness",
 ]
 BUDGET = {"quick": 200, "thorough": 1500}
@@ -133,6 +165,125 @@ def parse_into_used(inp, codec, via, other):
     return used
 
 
+def valid_history(history):
+    """Recogniser for the optional "history" of a case (any list of well-typed steps)."""
+    if not isinstance(history, list) or len(history) > 6:
+        return False
+    for i, st_ in enumerate(history):
+        if not isinstance(st_, dict):
+            return False
+        ls = st_.get("lines")
+        if not (isinstance(ls, list) and all(isinstance(l, str) and "\n" not in l for l in ls)):
+            return False
+        if st_.get("form") not in FORMS or st_.get("codec", "utf-8") not in G.LINEWISE_CODECS:
+            return False
+        if st_.get("enc") is not None and st_["enc"] not in OTHERS:
+            return False
+        if st_.get("max_blocks") not in (None, 1, 2, 3):
+            return False
+        if any(not isinstance(st_.get(k, False), bool) for k in ("strict", "ctor", "empty_author", "scribble")):
+            return False
+        if st_.get("ctor", False) and (i != 0 or st_.get("enc") is not None):
+            return False
+    return True
+
+
+def step_input(st_):
+    """The input of a history step: its lines in its form; bytes forms in its codec."""
+    form, lines, codec = st_["form"], st_["lines"], st_.get("codec", "utf-8")
+    if form == "bytes":
+        return "".join(l + "\n" for l in lines).encode(codec, "replace")
+    if form == "bytes-lines":
+        return [(l + "\n").encode(codec, "replace") for l in lines]
+    if form == "bytes-file":
+        return io.BytesIO("".join(l + "\n" for l in lines).encode(codec, "replace"))
+    return make_input(form, lines)
+
+
+def _outcome(fn):
+    """Run one step of the past.  Nothing is demanded of it: its inputs are outside the property."""
+    with warnings.catch_warnings(record=True) as caught:
+        warnings.simplefilter("always")
+        try:
+            fn()
+        except ChangelogParseError as e:
+            return "parse-error:" + _error_class(str(e))
+        except UnicodeError:
+            return "decode-error"
+        except Exception as e:      # pylint: disable=broad-except
+            return "other-exception:" + type(e).__name__
+    if caught:
+        return "warned:" + _error_class(str(caught[-1].message))
+    return "returned"
+
+
+def object_with_history(history, codec, via, other):
+    """(object, outcome of every step): a Changelog constructed as ``via`` says, then used as told."""
+    kw = {}
+    if via == "ctor":
+        kw["encoding"] = codec
+    elif via == "call-over":
+        kw["encoding"] = other
+    box, outcomes = [], []
+    for i, st_ in enumerate(history):
+        args = dict(strict=st_.get("strict", False), max_blocks=st_.get("max_blocks"),
+                    allow_empty_author=st_.get("empty_author", False))
+        inp = step_input(st_)
+        if i == 0 and st_.get("ctor", False):
+            args.update(kw)
+            out = _outcome(lambda: box.append(Changelog(inp, **args)))
+            outcomes.append("Changelog(..):" + out)
+            if not box:
+                box.append(Changelog(**kw))
+        else:
+            if not box:
+                box.append(Changelog(**kw))
+            if st_.get("enc") is not None:
+                args["encoding"] = st_["enc"]
+            out = _outcome(lambda: box[0].parse_changelog(inp, **args))
+            outcomes.append(out)
+        if st_.get("scribble", False):
+            used = box[0]
+            out = _outcome(lambda: (used[0].add_change("  * scribble") if len(used) else None,
+                                    used.initial_blank_lines.append("")))
+            if out != "returned":
+                outcomes[-1] += "+scribble-" + out
+    if not box:
+        box.append(Changelog(**kw))
+    return box[0], outcomes
+
+
+def final_parse(cl, inp, codec, via):
+    """The judged parse, worded as parse_fresh() words it (no encoding= where ``via`` names none)."""
+    if via in ("default", "ctor"):
+        cl.parse_changelog(inp, strict=True)
+    else:
+        cl.parse_changelog(inp, strict=True, encoding=codec)
+
+
+_IN_BLOCK = ("parse-error:eof", "parse-error:unexpected-in-block", "parse-error:bad-trailer", "decode-error",
+             "warned:eof")
+
+
+def history_labels(case, history, outcomes, codec, via, other, text):
+    labels = set()
+    last = outcomes[-1].replace("Changelog(..):", "")
+    labels.add("history:last-step:" + last.split("+")[0])
+    if last.startswith(_IN_BLOCK):
+        labels.add("history:last-step-ended-inside-a-block-or-undecodable")
+    own = {"default": "utf-8", "ctor": codec, "call": "utf-8", "call-over": other}[via]
+    explicit = [s_.get("enc") for s_ in history if s_.get("enc") is not None]
+    if explicit and explicit[-1] != own:
+        labels.add("history:last-explicit-encoding-differs-from-object's")
+        if via in ("default", "ctor") and case["form"] in BYTES_FORMS and not text.isascii():
+            labels.add("history:other-explicit-encoding-then-non-ascii-bytes-without-encoding")
+    if any(s_.get("ctor", False) for s_ in history):
+        labels.add("history:object-made-from-a-text")
+    if any(s_.get("scribble", False) for s_ in history):
+        labels.add("history:scribbled")
+    return labels
+
+
 def _error_class(msg):
     prefix = "Could not parse changelog: "
     if msg.startswith(prefix):
@@ -156,6 +307,49 @@ def _expect(sig, what, got, want):
         raise Violation(sig, "%s is %s, written %s" % (what, short(got, 150), short(want, 150)))
 
 
+def _check_result(cl, case, text, encoded, codec, via, pre, ctx="", with_bytes=True):
+    """Everything the statement demands of the Changelog ``cl`` that a strict parse of ``text`` left."""
+    got = str(cl)
+    if got != text:
+        raise Violation(pre + "str-differs", "%sstr() gives %s, text %s" % (ctx, short(got), short(text)))
+    if via in ("default", "ctor") and with_bytes:
+        # the object's encoding is that of the input: bytes() is the text as it was (or would be) handed in
+        gotb = bytes(cl)
+        if gotb != encoded:
+            raise Violation(pre + "bytes-differs", "%sbytes() gives %s, the text in %s is %s"
+                            % (ctx, short(gotb), codec, short(encoded)))
+
+    want = case["blocks"]
+    _expect(pre + "block-count", "len()", len(cl), len(want))
+    got_blocks = list(cl)
+    _expect(pre + "block-count", "number of iterated blocks", len(got_blocks), len(want))
+    for i, (b, w) in enumerate(zip(got_blocks, want)):
+        where = "block %d " % i
+        _expect(pre + "attr:package", where + "package", b.package, w["package"])
+        _expect(pre + "attr:version", where + "str(version)", str(b.version), w["version"])
+        _expect(pre + "attr:distributions", where + "distributions", b.distributions, " ".join(w["dists"]))
+        _expect(pre + "attr:urgency", where + "urgency", b.urgency, w["urgency"])
+        _expect(pre + "attr:urgency_comment", where + "urgency_comment", b.urgency_comment, w["ucomment"])
+        _expect(pre + "attr:other_pairs", where + "other_pairs",
+                [list(kv) for kv in b.other_pairs.items()], [list(kv) for kv in w["pairs"]])
+        _expect(pre + "attr:changes", where + "changes()", list(b.changes()), list(w["changes"]))
+        _expect(pre + "attr:author", where + "author", b.author, G.author_of(w))
+        if b.date != w["date"] + w["dtrail"] and b.date != w["date"]:
+            raise Violation(pre + "attr:date", "%sdate is %r, written %r (+ %r)" % (where, b.date, w["date"], w["dtrail"]))
+        if cl[i] is not b:
+            raise Violation(pre + "block-order", "cl[%d] is not the %d-th iterated block" % (i, i))
+    w0 = want[0]
+    _expect(pre + "attr:versions", "versions", [str(v) for v in cl.versions], [w["version"] for w in want])
+    _expect(pre + "attr:version", "Changelog.version", str(cl.version), w0["version"])
+    _expect(pre + "attr:version", "Changelog.full_version", cl.full_version, w0["version"])
+    _expect(pre + "attr:package", "Changelog.package", cl.package, w0["package"])
+    _expect(pre + "attr:distributions", "Changelog.distributions", cl.distributions, " ".join(w0["dists"]))
+    _expect(pre + "attr:urgency", "Changelog.urgency", cl.urgency, w0["urgency"])
+    _expect(pre + "attr:author", "Changelog.author", cl.author, G.author_of(w0))
+    if cl.date != w0["date"] + w0["dtrail"] and cl.date != w0["date"]:
+        raise Violation(pre + "attr:date", "Changelog.date is %r" % (cl.date,))
+
+
 PRIOR_TEXT = ("\nprior (0.1-1) unstable; urgency=low\n\n  * prior entry\n\n"
               " -- A B <a@b.c>  Mon, 01 Jan 2001 00:00:00 +0000\n\n"
               "prior (0.1-0) unstable; urgency=low\n\n  * older\n\n"
@@ -169,6 +363,9 @@ def check(case):
     if enc is None:
         return (False, ("invalid-case-skipped",))
     codec, via, other = enc
+    history = case.get("history")
+    if history is not None and not valid_history(history):
+        return (False, ("invalid-case-skipped",))
     lines = G.render_lines(case)
     text = "".join(l + "\n" for l in lines)
     if not G.encodable(text, codec):
@@ -188,45 +385,7 @@ def check(case):
         m = str(caught[0].message)
         raise Violation("warning:" + _error_class(m), "%s for %s" % (m, short(text)))
 
-    got = str(cl)
-    if got != text:
-        raise Violation("str-differs", "str() gives %s, text %s" % (short(got), short(text)))
-    if via in ("default", "ctor"):
-        # the object's encoding is that of the input: bytes() is the text as it was (or would be) handed in
-        gotb = bytes(cl)
-        if gotb != encoded:
-            raise Violation("bytes-differs", "bytes() gives %s, the text in %s is %s"
-                            % (short(gotb), codec, short(encoded)))
-
-    want = case["blocks"]
-    _expect("block-count", "len()", len(cl), len(want))
-    got_blocks = list(cl)
-    _expect("block-count", "number of iterated blocks", len(got_blocks), len(want))
-    for i, (b, w) in enumerate(zip(got_blocks, want)):
-        where = "block %d " % i
-        _expect("attr:package", where + "package", b.package, w["package"])
-        _expect("attr:version", where + "str(version)", str(b.version), w["version"])
-        _expect("attr:distributions", where + "distributions", b.distributions, " ".join(w["dists"]))
-        _expect("attr:urgency", where + "urgency", b.urgency, w["urgency"])
-        _expect("attr:urgency_comment", where + "urgency_comment", b.urgency_comment, w["ucomment"])
-        _expect("attr:other_pairs", where + "other_pairs",
-                [list(kv) for kv in b.other_pairs.items()], [list(kv) for kv in w["pairs"]])
-        _expect("attr:changes", where + "changes()", list(b.changes()), list(w["changes"]))
-        _expect("attr:author", where + "author", b.author, G.author_of(w))
-        if b.date != w["date"] + w["dtrail"] and b.date != w["date"]:
-            raise Violation("attr:date", "%sdate is %r, written %r (+ %r)" % (where, b.date, w["date"], w["dtrail"]))
-        if cl[i] is not b:
-            raise Violation("block-order", "cl[%d] is not the %d-th iterated block" % (i, i))
-    w0 = want[0]
-    _expect("attr:versions", "versions", [str(v) for v in cl.versions], [w["version"] for w in want])
-    _expect("attr:version", "Changelog.version", str(cl.version), w0["version"])
-    _expect("attr:version", "Changelog.full_version", cl.full_version, w0["version"])
-    _expect("attr:package", "Changelog.package", cl.package, w0["package"])
-    _expect("attr:distributions", "Changelog.distributions", cl.distributions, " ".join(w0["dists"]))
-    _expect("attr:urgency", "Changelog.urgency", cl.urgency, w0["urgency"])
-    _expect("attr:author", "Changelog.author", cl.author, G.author_of(w0))
-    if cl.date != w0["date"] + w0["dtrail"] and cl.date != w0["date"]:
-        raise Violation("attr:date", "Changelog.date is %r" % (cl.date,))
+    _check_result(cl, case, text, encoded, codec, via, "")
 
     # The same text parsed into an object that already holds something (an earlier parse of a
     # different changelog, then scribbled on) must give the same result: what a Changelog holds
@@ -240,15 +399,38 @@ def check(case):
                             "%s for %s" % (e, short(text)))
     if caught:
         raise Violation("reparse-into-used-object:warning", "%s for %s" % (caught[0].message, short(text)))
-    if str(used) != text or len(used) != len(want):
-        raise Violation("reparse-into-used-object:str-differs",
-                        "a Changelog that held another text gives %s after parse_changelog(%s input), text %s"
-                        % (short(str(used)), case["form"], short(text)))
+    _check_result(used, case, text, encoded, codec, via, "reparse-into-used-object:",
+                  "a Changelog that held another text, after parse_changelog(%s input): " % case["form"])
+
+    # ... and so must an object with any other past (aborted, lenient, differently encoded parses)
+    hist_labels = []
+    if history:
+        used, outcomes = object_with_history(history, codec, via, other)
+        ctx = "a Changelog with the past [%s], after parse_changelog(%s input): " % (
+            ", ".join(outcomes), case["form"])
+        with warnings.catch_warnings(record=True) as caught:
+            warnings.simplefilter("always")
+            try:
+                final_parse(used, make_input(case["form"], lines, codec), codec, via)
+            except ChangelogParseError as e:
+                raise Violation("reparse-after-history:strict-rejects:" + _error_class(str(e)),
+                                "%s%s for %s" % (ctx, e, short(text)))
+            except UnicodeError as e:
+                raise Violation("reparse-after-history:decode-error", "%s%s for %s in %s"
+                                % (ctx, e, short(text), codec))
+        if caught:
+            raise Violation("reparse-after-history:warning", "%s%s for %s" % (ctx, caught[0].message, short(text)))
+        # (which codec bytes() uses after a call that named another one is not pinned down here)
+        _check_result(used, case, text, encoded, codec, via, "reparse-after-history:", ctx,
+                      with_bytes=all(s_.get("enc") is None for s_ in history))
+        hist_labels = history_labels(case, history, outcomes, codec, via, other, text)
 
     labels = G.struct_labels(case)
     labels.add("form:" + case["form"])
     labels.add("codec:" + codec)
     labels.add("encoding-via:" + via)
+    labels.add("history-steps:%d" % len(history or ()))
+    labels.update(hist_labels)
     if case["form"] in BYTES_FORMS and not text.isascii():
         labels.add("non-ascii-bytes-input")
         if codec != "utf-8":
@@ -268,19 +450,93 @@ _linewise_codecs = st.sampled_from(sorted(G.LINEWISE_CODECS))
 _others = {c: st.sampled_from([o for o in OTHERS if o != c]) for c in G.CODECS}
 
 
+# Texts for the past of an object: a few small changelogs (the last lines of a block are where a
+# reader is when it is cut short), cut and/or spoiled at drawn places; a quarter of the steps take
+# the damaged documents of gen/c04_changelog.py (any line operation on any generated changelog).
+HISTORY_TEXTS = [
+    PRIOR_TEXT.split("\n")[:-1],
+    ["past (1.0-1) unstable; urgency=low", "", "  * work in progress", "    not signed off yet", "",
+     " -- A B <a@b.c>  Mon, 01 Jan 2001 00:00:00 +0000"],
+    ["", "past (2:3.0~rc1-1) experimental unstable; urgency=HIGH (x), binary-only=yes", "",
+     "  * plain line", "  * Na\u00efve r\u00e9sum\u00e9 handling: fixed (#12).", "  [ Zo\u00eb M\u00fcller ]", "  * \u6f22\u5b57", "",
+     " -- Zo\u00eb M\u00fcller <zoe@example.org>  Tue,  2 Feb 2021 1:02:03 +0100", "",
+     "past (0.9) stable; urgency=low", "  * tight", " -- X <x@y.z>  Wed, 03 Mar 1999 23:59:59 -0000", ""],
+]
+_hist_text = st.sampled_from(HISTORY_TEXTS)
+_hist_cut = st.sampled_from([None, None, 1, 2, 3, 4, 5, 6, 7, 8, 9, 10])
+_hist_junk = st.one_of(st.none(), st.none(), G.junk_lines, G.change_lines)
+_hist_pos = st.sampled_from(range(0, 14))
+_hist_form = st.sampled_from(FORMS)
+_hist_codec = st.sampled_from(["utf-8", "utf-8", "latin-1", "latin-1", "koi8-r", "euc-jp", "gb18030", "cp1252",
+                               "iso-8859-15"])
+_hist_enc = st.sampled_from([None, None, None, None, "utf-8", "latin-1", "latin-1", "iso-8859-15", "cp1252",
+                             "koi8-r", "euc-jp", "gb18030", "ascii"])
+_hist_flags = st.sampled_from([(s_, c, m, e, k)
+                               for s_ in (True, True, False) for c in (False, False, True)
+                               for m in (None, None, None, 1) for e in (False, False, True)
+                               for k in (False, False, True)])
+_hist_len = st.sampled_from([0, 0, 1, 1, 1, 2, 2, 3])
+_hist_kind = st.sampled_from(["pool", "pool", "pool", "mutated"])
+_hist_mutated = G.mutated_lines(2)
+
+
+@st.composite
+def _history_step(draw, first):
+    if draw(_hist_kind) == "pool":
+        lines = list(draw(_hist_text))
+        cut = draw(_hist_cut)
+        if cut is not None:
+            del lines[cut:]
+        junk = draw(_hist_junk)
+        if junk is not None:
+            lines.insert(draw(_hist_pos) % (len(lines) + 1), junk)
+    else:
+        lines = list(draw(_hist_mutated))
+    form = draw(_hist_form)
+    strict, ctor, max_blocks, empty_author, scribble = draw(_hist_flags)
+    step = {"lines": lines, "form": form, "strict": strict}
+    if form in BYTES_FORMS:
+        step["codec"] = draw(_hist_codec)
+        step["lines"] = G.transliterate(lines, step["codec"])
+    if ctor and first:
+        step["ctor"] = True
+    else:
+        step["enc"] = draw(_hist_enc)
+    if max_blocks is not None:
+        step["max_blocks"] = max_blocks
+    if empty_author:
+        step["empty_author"] = True
+    if scribble:
+        step["scribble"] = True
+    return step
+
+
+_history_steps = {True: _history_step(True), False: _history_step(False)}
+
+
+@st.composite
+def gen_history(draw):
+    return [draw(_history_steps[i == 0]) for i in range(draw(_hist_len))]
+
+
+_histories = gen_history()
+
+
 @st.composite
 def gen_case(draw, max_blocks=4):
     s = draw(G.structs(max_blocks=max_blocks))
     form = draw(_forms)
     via = draw(_vias)
-    if via == "default":
-        s["form"] = form
-        return s
-    codec = draw(_linewise_codecs if form in LINEWISE_BYTES_FORMS else _codecs)
-    s = G.transliterate(s, codec)
-    s["form"], s["codec"], s["via"] = form, codec, via
-    if via == "call-over":
-        s["other"] = draw(_others[codec])
+    history = draw(_histories)
+    s["form"] = form
+    if via != "default":
+        codec = draw(_linewise_codecs if form in LINEWISE_BYTES_FORMS else _codecs)
+        s = G.transliterate(s, codec)
+        s["codec"], s["via"] = codec, via
+        if via == "call-over":
+            s["other"] = draw(_others[codec])
+    if history:
+        s["history"] = history
     return s
 
 
